@@ -65,6 +65,11 @@ def shards(tier, seed):
         out.append(("pct_%d" % i, dict(kind="pct", count=300 if q else 6000)))
     for i in range(2 if q else 8):
         out.append(("two_locks_%d" % i, dict(kind="two_locks", count=250 if q else 5000)))
+    # the same protocol with assert statements stripped (python -O): no step of the protocol may live inside an assert
+    out.append(("child_sys_r2w1", dict(kind="systematic", r=2, w=1, rounds=1, bound=2, limit=600 if q else 6000, lines=False, _pyopt="opt")))
+    out.append(("child_sys_r1w2", dict(kind="systematic", r=1, w=2, rounds=1, bound=2, limit=600 if q else 6000, lines=False, _pyopt="opt")))
+    out.append(("child_random", dict(kind="random", count=200 if q else 2000, lines=True, _pyopt="opt+hashseed")))
+    out.append(("child_free", dict(kind="free", rounds=100 if q else 1000, _pyopt="opt")))
     out.append(("share", dict(kind="share", count=100 if q else 2000)))
     out.append(("free", dict(kind="free", rounds=300 if q else 3000)))
     return out
